@@ -41,6 +41,17 @@ CHECKS = {
         note="Trusts Python integer arithmetic and the reading of the statement (floor division, remainder with divisor's sign). "
              "Unary minus on a signed non-negative representation is unreachable from the API and not judged.",
         design="DESIGN.md 5-C08"),
+    "C09": dict(
+        technique="offline algebraic-law checker over full relation matrices recorded from the engine (all pairs, all triples of a value pool)",
+        category="exploration",
+        text="Every comparison word, alias and infix form is executed by the real engine on every ordered pair of a ~150-value pool (integers in every arithmetic "
+             "domain incl. positions and addresses, booleans, slot types, DW_* families and ELF symbol domains of several machines with equal numbers, strings with "
+             "NUL/high bytes/prefixes, nested sequences, address sets, a closure, and DWARF values: the same DIE via three import routes, raw and route-less, units, "
+             "attributes, abbreviations, symbols, location elements, the same file opened twice); Python then checks trichotomy, reflexivity, symmetry, transitivity "
+             "over all triples, converse, alias agreement cell by cell, cross-type consistency, by-value order of arithmetic domains, bytewise strings, length-first sequences.",
+        note="Laws are stated on relations, never on a particular order of unrelated values (which is by object address).  The whole matrix is computed in one process. "
+             "Known finding S2 (route-less DIE 'template' equality) is matched by its exact triple pattern.",
+        design="DESIGN.md 5-C09"),
     "C10": dict(
         technique="reachability reference model (BFS over ==-classes) + metamorphic closure laws + fuel-bounded termination monitor (logical steps, hook H2)",
         category="exploration",
@@ -79,6 +90,16 @@ CHECKS = {
              "aborts are fatal, LeakSanitizer is polled after batches whose API objects were all destroyed.  All other properties' checks run on the same build.",
         note="ASan misses intra-object overflows and reuse after quarantine; memcheck and libFuzzer are thorough-only.  Known finding F8 (rejected queries leak under yyparse/yylex) is matched by allocation site.",
         design="DESIGN.md 5-C13"),
+    "C14": dict(
+        technique="contract-event monitor at the C API boundary + sanitizers + watchdog, over hostile byte strings; CLI exit-status check",
+        category="exploration",
+        text="zwdrv wraps every API call and records (returned NULL/false, *err set, message empty, exception escaped, *out_stack set); all single bytes, all pairs "
+             "of 50 tokens, boundary integer literals with every prefix, strings/splices cut at every position, NUL bytes and 30000+ byte-mutated grammar strings are "
+             "parsed through zw_query_parse_len from an exact-size heap block (ASan sees any read past the length), through zw_query_parse, and with explicit "
+             "lengths shorter than the buffer; accepted queries are executed under a step budget; run-time failures are placed at a chosen pull index; a sample "
+             "goes through the CLI (-e, -f incl. NUL bytes, positional) where rejected or raising queries must end with a message and status 2.",
+        note="A hang is a missing reply within 20 s twice in a row under a 20000-step budget.",
+        design="DESIGN.md 5-C14"),
     "C15": dict(
         technique="metamorphic notation monitor: original vs rewritten program on the real engine, simplify on/off",
         category="exploration",
